@@ -164,10 +164,13 @@ impl StorageEngine {
     pub fn create_knowledge_graph(&self, name: &str) -> StorageResult<()> {
         let start = Instant::now();
         // Validate knowledge graph name
+        // ':' separates the graph from the relation in shard names ("kg:relation"), which
+        // are split on the first ':' when the store is reloaded
         if name.is_empty()
             || name.contains('/')
             || name.contains('\\')
             || name.contains('\0')
+            || name.contains(':')
             || name.contains("..")
             || name == "."
         {
@@ -436,6 +439,12 @@ impl StorageEngine {
     ) -> StorageResult<(usize, usize)> {
         if tuples.is_empty() {
             return Ok((0, 0));
+        }
+
+        // A relation name containing ':' cannot be told apart from "graph:relation" in
+        // shard names: after a reload its data shows up under another graph/relation.
+        if relation.is_empty() || relation.contains(':') || relation.contains('/') {
+            return Err(StorageError::InvalidRelationName(relation.to_string()));
         }
 
         // Check if relation is a view (derived relation) - cannot insert into views
